@@ -57,6 +57,7 @@ def gen_universe(rnd, big=False):
     tasks = []
     small_pool = rnd.random() < 0.3      # many objects share few ids: most attach attempts meet an equal id somewhere
     pool = max(2, n // 2)
+    mixed_prio = rnd.random() < 0.35             # an attribute whose values do not all compare with each other (sort must fail cleanly)
     big = 1000 if rnd.random() < 0.3 else 0      # ids beyond the small-int cache: equal ids are then distinct objects
     for k in range(n):
         if small_pool:
@@ -64,7 +65,10 @@ def gen_universe(rnd, big=False):
         else:
             tid = rnd.randint(1, n) if rnd.random() < 0.25 else k + 1
         tid += big
-        tasks.append({'id': tid, 'name': rnd.choice(NAMES)})
+        tk = {'id': tid, 'name': rnd.choice(NAMES)}
+        if mixed_prio:
+            tk['prio'] = rnd.choice([1, 2, 3, None, 'x', 2.5])
+        tasks.append(tk)
     nw = rnd.choice([1, 1, 2, 2, 3])
     wbs = [({'title': f'W{k}'} if rnd.random() < 0.3 else {}) for k in range(nw)]
     return {'tasks': tasks, 'wbs': wbs}
@@ -156,7 +160,7 @@ def gen_op(rnd, s, u):
         r = rnd.random()
         views = sorted(k for k, v in u.stale.items() if k.startswith('v'))
         if r < 0.45:
-            fk = rnd.choice(['ids', 'ids', 'all', 'name', 'id', 'raising'])
+            fk = rnd.choice(['ids', 'ids', 'all', 'none', 'name', 'id', 'raising'])
             if fk == 'ids':
                 flt = {'kind': 'ids', 'ids': sorted({s['T'][q]['id'] for q in (rnd.sample(cur, min(len(cur), rnd.randint(1, 3))) if cur else [x])}, key=repr),
                        'as': rnd.choice(['callable', 'kw'])}
@@ -166,6 +170,8 @@ def gen_op(rnd, s, u):
                 flt = {'kind': 'id', 'id': s['T'][rnd.choice(cur) if cur else x]['id']}
             elif fk == 'raising':
                 flt = {'kind': 'raising', 'after': rnd.randint(0, 2)}
+            elif fk == 'none':
+                flt = {'kind': 'none'}
             else:
                 flt = {'kind': 'all'}
             return [kind + '.remove_all', tt, flt]
@@ -246,7 +252,7 @@ def gen_op(rnd, s, u):
                 (member(h) if mode == 'ba' else anchor) if 'a' in mode else None, single]
     if c < 50:
         h = list_holder()
-        return ['sort', list(h), rnd.choice(['name', 'id', ['name', 'id'], ['name'], 'nosuchattr', 5]), rnd.random() < 0.5]
+        return ['sort', list(h), rnd.choice(['name', 'id', ['name', 'id'], ['name'], 'nosuchattr', 5, 'prio', 'prio']), rnd.random() < 0.5]
     if c < 54:
         h = list_holder()
         cur = _hl(s, h)
@@ -257,7 +263,7 @@ def gen_op(rnd, s, u):
     if c < 58:
         h = list_holder()
         cur = _hl(s, h)
-        kind = rnd.choice(['ids', 'ids', 'id', 'name', 'all', 'int', 'raising'])
+        kind = rnd.choice(['ids', 'ids', 'id', 'name', 'all', 'none', 'int', 'raising'])
         if kind == 'ids':
             flt = {'kind': 'ids', 'ids': sorted({s['T'][q]['id'] for q in some(0, 3)} | ({s['T'][rnd.choice(cur)]['id']} if cur else set()), key=repr),
                    'as': rnd.choice(['callable', 'kw'])}
@@ -269,6 +275,8 @@ def gen_op(rnd, s, u):
             flt = {'kind': 'int', 'value': s['T'][member(h)]['id']}
         elif kind == 'raising':
             flt = {'kind': 'raising', 'after': rnd.randint(0, 2)}
+        elif kind == 'none':
+            flt = {'kind': 'none'}
         else:
             flt = {'kind': 'all'}
         if rnd.random() < 0.4:
@@ -667,6 +675,17 @@ def run_history(prop, spec, ops, acc, gen=None, tail=True, judge_from=0, layer='
                 acc.count('adopted_subtree_depth>=2')
             if members and (released or any(v['owner'] is None for v in s1['T'].values())):
                 acc.sig(sh, name, outcome)
+        if outcome == 'ok' and exp and op[0] in ('wbs.remove', 'lremove', 'remove_all', 'wbs.remove_all', 'children=') or \
+                outcome == 'ok' and exp and op[0] == 'stale.use' and op[2][0] == 'lremove':
+            # effect clause of C11: whatever a removal that returned takes out of a WBS reports no owner and is gone from it
+            want_gone = [k for k in s0['T'] if s0['T'][k]['owner'] is not None and all(e_['T'][k]['owner'] is None for e_ in exp)]
+            if want_gone:
+                reach1 = set()
+                for r__ in s1['R'].values():
+                    reach1.update(reach(s1, r__))
+                still = [k for k in want_gone if k in reach1 or s1['T'][k]['owner'] is not None]
+                if still:
+                    viol.append(('C11', f'C11/removed-task-still-member/{name}', f'{name} returned, but {still} (to be released by it) are still members / still report an owner'))
         # ---- C15
         if outcome != 'ok' and op[0] not in ('stale.get', 'linkview.get'):
             if prop == 'C15':
